@@ -478,6 +478,36 @@ def run(repo: Repo, rep: Report, tier: str) -> None:
         else:
             rep.violation("R10.3", sub, f"{gen.fq}|init-loop|stops={stops}",
                           f"ancestor loop does not stop at project_root / writes something else (stops={stops}, steps={bool(steps)}, only_init={only_init})", gen.loc(w))
+    # the same loop extracted into a helper of the class (`self._ensure_inits(out_dir, project_root)`): judged per call site
+    gcls = gen.module.classes.get(gen.qualname.split(".")[0]) if "." in gen.qualname else None
+    for hname, hf in (gcls.methods.items() if gcls is not None else []):
+        if hf is gen:
+            continue
+        for w in [n for n in own_nodes(hf.node) if isinstance(n, ast.While)]:
+            writes = [c for c in calls_in(w) if isinstance(c.func, ast.Attribute) and c.func.attr == "write_text"]
+            m = match("VAR_c != VAR_r", w.test)
+            if not writes or m is None or m["VAR_r"] not in hf.params:
+                continue
+            var = m["VAR_c"]
+            steps = [n for n in own_nodes(w) if isinstance(n, ast.Assign) and norm(n.targets[0]) == var and norm(n.value) == f"{var}.parent"]
+            only_init = all("__init__.py" in norm(_def_of(hf, c.func.value)) for c in writes)  # type: ignore[union-attr]
+            hparams = [p_ for p_ in hf.params if p_ not in ("self", "cls")]
+            pos = hparams.index(m["VAR_r"])
+            for c in calls_in(gen.node):
+                if not (isinstance(c.func, ast.Attribute) and c.func.attr == hname):
+                    continue
+                actual = c.args[pos] if pos < len(c.args) else next((k.value for k in c.keywords if k.arg == m["VAR_r"]), None)
+                n_loops += 1
+                sub = f"{gen.module.relpath}:generate ancestor __init__ loop via `{norm(c)[:50]}`"
+                stops = False
+                if isinstance(actual, ast.Name):
+                    rr = Provenance(gen).roots(actual)
+                    stops = actual.id == "project_root" or ("call", "tempfile.TemporaryDirectory") in rr or ("call", "tempfile.mkdtemp") in rr
+                if stops and steps and only_init:
+                    rep.ok("R10.3", sub, f"{hname} walks upward by .parent, stops at `{norm(actual)}`, writes only missing __init__.py", gen.loc(c))
+                else:
+                    rep.violation("R10.3", sub, f"{gen.fq}|init-loop|stops={stops}",
+                                  f"ancestor loop does not stop at project_root / writes something else (stops={stops}, steps={bool(steps)}, only_init={only_init})", gen.loc(c))
     rep.require(n_loops >= 2, f"R10.3: {n_loops} ancestor __init__ loops found (floor 2)")
 
     # ---------------------------------------------------------------- R10.4 swallowing handlers
